@@ -371,10 +371,10 @@ fn confirm_alone(exe: &Path, id: &str, path: &Path) -> Confirm {
                 };
             }
             Ok(None) => {
-                if started.elapsed() > Duration::from_secs(120) {
+                if started.elapsed() > Duration::from_secs(90) {
                     let _ = child.kill();
                     let _ = child.wait();
-                    return Confirm::Failed("still running after 120 s (hang)".to_string());
+                    return Confirm::Failed("still running after 90 s (hang)".to_string());
                 }
                 std::thread::sleep(Duration::from_millis(50));
             }
@@ -478,6 +478,7 @@ pub fn parent_main(property: &dyn Property, tier: Tier, seed: u64) -> i32 {
     });
     let mut stats = Stats::default();
     let mut all_hashes: Vec<u64> = Vec::new();
+    let mut confirmed_hangs = 0u32;
     for (shard, mut child, report_path) in children {
         let status = loop {
             match child.try_wait() {
@@ -506,7 +507,13 @@ pub fn parent_main(property: &dyn Property, tier: Tier, seed: u64) -> i32 {
                     .and_then(|bytes| serde_json::from_slice(&bytes).ok())
                     .unwrap_or(json!({}));
                 let path = write_replay(id, &replay);
-                // confirm: re-run that case alone, with a deadline
+                // confirm: re-run that case alone, with a deadline (only the first such worker is confirmed: the
+                // others died of the same cause more often than not, and each confirmation may take minutes)
+                if confirmed_hangs >= 1 {
+                    engine_errors.push(format!("worker {shard} {why} (noted case: {}; not re-run, an earlier worker's case was)", path.display()));
+                    continue;
+                }
+                confirmed_hangs += 1;
                 match confirm_alone(&exe, id, &path) {
                     Confirm::Passed => engine_errors.push(format!(
                         "worker {shard} {why}, but the noted case passes when re-run alone ({})",
